@@ -16,14 +16,20 @@ fi
 if [ "$TIER" = "quick" ]; then
   exec bin/dcmcheck -prop "$ID" -tier quick -repo "$REPO" -verif "$(pwd)"
 fi
-# thorough: extra platforms / call graph first (sub-runs, no evidence), then the main run which writes evidence
+# thorough: the same rules on a second platform (sub-run, no evidence), the mutation self-test of
+# this property's rules (scratch copies under $TMPDIR, removed after each entry), then the main run,
+# which writes the evidence. A failing self-test means "checker unreliable" (exit 2); it is never
+# turned into a VIOLATION of /repo.
 rc=0
-for variant in "-goarch 386" "-goos windows" "-cha" "-tests"; do
+for variant in "-goos windows"; do
   out=$(bin/dcmcheck -prop "$ID" -tier thorough -repo "$REPO" -verif "$(pwd)" -no-evidence $variant 2>&1); r=$?
   echo "--- variant [$variant] exit=$r"
   echo "$out" | grep -E '^(VIOLATION|KNOWN-FINDING|CHECK-ERROR|  rule=|OK )' || true
   if [ $r -gt $rc ]; then rc=$r; fi
 done
+echo "--- mutation self-test for $ID"
+VERIF_REPO="$REPO" python3 selftest/run.py --prop "$ID" -j 6; st=$?
 bin/dcmcheck -prop "$ID" -tier thorough -repo "$REPO" -verif "$(pwd)"; r=$?
 if [ $r -gt $rc ]; then rc=$r; fi
+if [ $rc -eq 0 ] && [ $st -ne 0 ]; then echo "CHECK-ERROR property=$ID mutation self-test failed: checker unreliable"; rc=2; fi
 exit $rc
